@@ -429,4 +429,283 @@ def cwNp (closeX closeY : Rat → Rat → Bool) (accum : Rat → Rat → Rat →
   if closeX v0.x vl.x && closeY v0.y vl.y then .ok (sign (cwFold acc 0 v0 vs.tail))
   else .ok (sign (cwFold acc 0 vl vs))
 
+/-! ## earcut `signed_area(points)` (the only earcut loop whose STATE differs between the twins; all other earcut functions are the same
+text after the cuts, see harness/props/c10_loops.py earcut_identity)
+Python:  `prev = points[-1]; for point in points: KERNEL_saTerm; prev = point`        (state: s and the previous POINT)
+Cython:  `prev = points[-1]; prev_x = prev.x; prev_y = prev.y; for point in points: KERNEL_saStep`   (state: s, prev_x, prev_y)
+both return 0.0 for an empty list. -/
+def signedAreaPy (term : Rat → Rat → Rat → Rat → Rat → Rat) (pts : List V2) : Rat :=
+  if pts.isEmpty then 0 else
+  (pts.foldl (fun (st : Rat × V2) pt => (term st.1 st.2.x st.2.y pt.x pt.y, pt)) (0, pts.getD (pts.length - 1) ⟨0, 0⟩)).1
+
+def signedAreaPyx (step : Rat → Rat → Rat → Rat → Rat → Rat × Rat × Rat) (pts : List V2) : Rat :=
+  if pts.isEmpty then 0 else
+  let l := pts.getD (pts.length - 1) ⟨0, 0⟩
+  (pts.foldl (fun (st : Rat × Rat × Rat) pt => step st.1 st.2.1 st.2.2 pt.x pt.y) (0, l.x, l.y)).1
+
+/-! ## banded LU: `_lu_decompose` / `_solve_vector_banded_matrix` (linalg.py) and the `_cext` functions of np_support.pyx
+The loop nests are the same in both twins (pinned skeletons `LU::decompose::*`, `LU::solve::*`); the arithmetic is cut out:
+`KERNEL_luPivotTest` (`abs(upper[j][0]) > abs(dum)`), `KERNEL_luFactor` (`upper[i][0] / upper[k][0]`, ZeroDivisionError),
+`KERNEL_luElim` (`upper[i][j] - dum * upper[k][j]`), `KERNEL_svFwd`, `KERNEL_svBack`, `KERNEL_svDiv`.
+`upper` is the compact n x (m1+m2+1) band, `lower` n x m1, `index` the 1-based pivot rows. -/
+def get2 (a : List (List Rat)) (i j : Nat) : Rat := kget (a.getD i []) j
+def set2 (a : List (List Rat)) (i j : Nat) (v : Rat) : List (List Rat) := a.set i ((a.getD i []).set j v)
+
+structure LuK where
+  pivot : Rat → Rat → Bool                 -- upper[j][0], dum
+  factor : Rat → Rat → Except PyErr Rat     -- upper[i][0], upper[k][0]
+  elim : Rat → Rat → Rat → Rat              -- upper[i][j], dum, upper[k][j]
+
+/-- first loop nest: rows 0..m1-1 are shifted left, the freed cells zeroed -/
+def luShift (upper : List (List Rat)) (m1 mm : Nat) : List (List Rat) :=
+  (List.range m1).foldl (fun up i =>
+    let l := m1 - i
+    let up1 := (List.range' l (mm - l)).foldl (fun u j => set2 u i (j - l) (get2 u i j)) up
+    let z := mm - (l - 1) - 1
+    (List.range' z (mm - z)).foldl (fun u j => set2 u i j 0) up1) upper
+
+structure LuState where
+  upper : List (List Rat)
+  lower : List (List Rat)
+  index : List Nat
+  l : Nat
+deriving Repr
+
+def luStep (K : LuK) (n mm k : Nat) (s : LuState) : Except PyErr LuState :=
+  let l := if s.l < n then s.l + 1 else s.l
+  let piv := (List.range' (k + 1) (l - (k + 1))).foldl
+    (fun (di : Rat × Nat) j => if K.pivot (get2 s.upper j 0) di.1 then (get2 s.upper j 0, j) else di) (get2 s.upper k 0, k)
+  let i := piv.2
+  let up := if i ≠ k then
+      (List.range mm).foldl (fun u j => set2 (set2 u k j (get2 u i j)) i j (get2 u k j)) s.upper
+    else s.upper
+  (forRange (k + 1) l (fun r (ul : List (List Rat) × List (List Rat)) =>
+      (K.factor (get2 ul.1 r 0) (get2 ul.1 k 0)).map (fun dum =>
+        let u1 := (List.range' 1 (mm - 1)).foldl (fun u j => set2 u r (j - 1) (K.elim (get2 u r j) dum (get2 u k j))) ul.1
+        (set2 u1 r (mm - 1) 0, set2 ul.2 k (r - k - 1) dum))) (up, s.lower)).map
+    (fun ul => ⟨ul.1, ul.2, s.index.set k (i + 1), l⟩)
+
+def luDecompose (K : LuK) (A : List (List Rat)) (m1 m2 : Nat) : Except PyErr LuState :=
+  let n := A.length
+  let mm := m1 + m2 + 1
+  forRange 0 n (fun k s => luStep K n mm k s)
+    ⟨luShift A m1 mm, List.replicate n (List.replicate m1 0), List.replicate n 0, m1⟩
+
+structure SvK where
+  fwd : Rat → Rat → Rat → Rat               -- x[j], al[k][j-k-1], x[k]
+  back : Rat → Rat → Rat → Rat              -- dum, au[i][k], x[k+i]
+  div : Rat → Rat → Except PyErr Rat        -- dum, au[i][0]
+
+def svSolve (K : SvK) (x : List Rat) (au al : List (List Rat)) (index : List Nat) (m1 m2 : Nat) : Except PyErr (List Rat) :=
+  let n := au.length
+  let mm := m1 + m2 + 1
+  let fw := (List.range n).foldl (fun (s : List Rat × Nat) k =>
+      let j := index.getD k 0 - 1
+      let x := if j ≠ k then (s.1.set k (kget s.1 j)).set j (kget s.1 k) else s.1
+      let l := if s.2 < n then s.2 + 1 else s.2
+      ((List.range' (k + 1) (l - (k + 1))).foldl (fun x j => x.set j (K.fwd (kget x j) (get2 al k (j - k - 1)) (kget x k))) x, l)) (x, m1)
+  ((List.range n).reverse.foldlM (fun (s : List Rat × Nat) i =>
+      let dum := (List.range' 1 (s.2 - 1)).foldl (fun d k => K.back d (get2 au i k) (kget s.1 (k + i))) (kget s.1 i)
+      (K.div dum (get2 au i 0)).map (fun q => (s.1.set i q, if s.2 < mm then s.2 + 1 else s.2))) (fw.1, 1)).map (·.1)
+
+/-! ## `Basis.basis_funcs_derivatives(span, u, n)` (A2.3) - the whole function (pinned skeleton, same loops in both twins up to
+DERIV_REWRITES; every arithmetic statement is a kernel)
+```
+n = min(n, p); left = right = [1.0]*order; ndu = order x order of 1.0
+for j in range(1, order):
+    left[j] = KERNEL_bdLeft; right[j] = KERNEL_bdRight; saved = 0.0
+    for r in range(j): KERNEL_bdInner      # (ndu[j][r], ndu[r][j], saved) := f(right[r+1], left[j-r], ndu[r][j-1], saved)
+    ndu[j][j] = saved
+derivatives = order x order of 0.0;  for j in range(order): derivatives[0][j] = ndu[j][p]
+a = 2 x order of 1.0
+for r in range(order):
+    s1 = 0; s2 = 1; a[0][0] = 1.0
+    for k in range(1, n + 1):
+        d = 0.0; rk = r - k; pk = p - k
+        if r >= k: a[s2][0] = KERNEL_bdA0; d = KERNEL_bdD0
+        j1 = 1 if rk >= -1 else -rk;  j2 = k - 1 if r - 1 <= pk else p - r
+        for j in range(j1, j2 + 1): a[s2][j] = KERNEL_bdAj; KERNEL_bdDj
+        if r <= pk: a[s2][k] = KERNEL_bdAk; KERNEL_bdDk
+        derivatives[k][r] = d; s1, s2 = s2, s1
+r = float(p)
+for k in range(1, n + 1):
+    for j in range(order): KERNEL_bdScale
+    KERNEL_bdNext
+return derivatives[:n + 1]
+``` -/
+structure DersK where
+  index : Rat → Rat → Rat
+  left : Rat → Rat → Rat
+  right : Rat → Rat → Rat
+  inner : Rat → Rat → Rat → Rat → Except PyErr (Rat × Rat × Rat)   -- right[r+1], left[j-r], ndu[r][j-1], saved -> ndu[j][r], ndu[r][j], saved
+  a0 : Rat → Rat → Except PyErr Rat        -- a[s1][0], ndu[pk+1][rk]
+  d0 : Rat → Rat → Rat                     -- a[s2][0], ndu[rk][pk]
+  aj : Rat → Rat → Rat → Except PyErr Rat  -- a[s1][j], a[s1][j-1], ndu[pk+1][rk+j]
+  dj : Rat → Rat → Rat → Rat               -- d, a[s2][j], ndu[rk+j][pk]
+  ak : Rat → Rat → Except PyErr Rat        -- a[s1][k-1], ndu[pk+1][r]
+  dk : Rat → Rat → Rat → Rat               -- d, a[s2][k], ndu[r][pk]
+  scale : Rat → Rat → Rat                  -- derivatives[k][j], r
+  next : Rat → Rat → Rat → Rat             -- r, p, k
+
+/-- the table `ndu` (first loop nest) -/
+def dersNdu (K : DersK) (knots : List Rat) (order : Nat) (span : Int) (u : Rat) : Except PyErr (List (List Rat)) :=
+  let ones := List.replicate order (1 : Rat)
+  (forRange 1 order (fun j (st : List (List Rat) × List Rat × List Rat) =>
+      let left := st.2.1.set j (K.left u (kgetI knots (idx (K.index (span : Rat) (j : Rat)))))
+      let right := st.2.2.set j (K.right u (kgetI knots (span + j)))
+      (forRange 0 j (fun r (ns : List (List Rat) × Rat) =>
+          (K.inner (kget right (r + 1)) (kget left (j - r)) (get2 ns.1 r (j - 1)) ns.2).map
+            (fun o => (set2 (set2 ns.1 j r o.1) r j o.2.1, o.2.2))) (st.1, 0)).map
+        (fun o => (set2 o.1 j j o.2, left, right)))
+    (List.replicate order ones, ones, ones)).map (·.1)
+
+structure DersState where
+  a : List (List Rat)       -- 2 x order
+  ders : List (List Rat)    -- order x order
+  s1 : Nat
+  s2 : Nat
+
+/-- one derivative order k for one function index r -/
+def dersStepK (K : DersK) (ndu : List (List Rat)) (p r k : Nat) (st : DersState) : Except PyErr DersState :=
+  let rk : Int := (r : Int) - k
+  let pk : Nat := p - k
+  let s1 := st.s1
+  let s2 := st.s2
+  -- if r >= k
+  (if r ≥ k then
+      (K.a0 (get2 st.a s1 0) (get2 ndu (pk + 1) rk.toNat)).map (fun v => (set2 st.a s2 0 v, K.d0 v (get2 ndu rk.toNat pk)))
+    else .ok (st.a, 0)).bind (fun ad =>
+  let j1 : Nat := if rk ≥ -1 then 1 else (-rk).toNat
+  let j2 : Int := if (r : Int) - 1 ≤ pk then (k : Int) - 1 else (p : Int) - r
+  (forRange j1 (j2 + 1).toNat (fun j (ad : List (List Rat) × Rat) =>
+      (K.aj (get2 ad.1 s1 j) (get2 ad.1 s1 (j - 1)) (get2 ndu (pk + 1) (rk + j).toNat)).map
+        (fun v => (set2 ad.1 s2 j v, K.dj ad.2 v (get2 ndu (rk + j).toNat pk)))) ad).bind (fun ad =>
+  (if r ≤ pk then
+      (K.ak (get2 ad.1 s1 (k - 1)) (get2 ndu (pk + 1) r)).map (fun v => (set2 ad.1 s2 k v, K.dk ad.2 v (get2 ndu r pk)))
+    else .ok ad).map (fun ad => ⟨ad.1, set2 st.ders k r ad.2, s2, s1⟩)))
+
+def basisFuncsDerivatives (K : DersK) (knots : List Rat) (order : Nat) (span : Int) (u : Rat) (n : Nat) : Except PyErr (List (List Rat)) :=
+  let p := order - 1
+  let n := if p < n then p else n            -- n = min(n, p)
+  (dersNdu K knots order span u).bind (fun ndu =>
+    let ders0 := (List.range order).foldl (fun d j => set2 d 0 j (get2 ndu j p)) (List.replicate order (List.replicate order (0 : Rat)))
+    (forRange 0 order (fun r (st : DersState) =>
+        forRange 1 (n + 1) (fun k st => dersStepK K ndu p r k st) ⟨set2 st.a 0 0 1, st.ders, 0, 1⟩)
+      ⟨List.replicate 2 (List.replicate order 1), ders0, 0, 1⟩).map (fun st =>
+      let scaled := (List.range' 1 n).foldl (fun (dr : List (List Rat) × Rat) k =>
+          ((List.range order).foldl (fun d j => set2 d k j (K.scale (get2 d k j) dr.2)) dr.1, K.next dr.2 (p : Rat) (k : Rat))) (st.ders, (p : Rat))
+      scaled.1.take (n + 1)))
+
+/-! ## `cubic_bezier_arc_parameters(start_angle, end_angle, segments)` (bezier4p, both twins; pinned skeletons)
+`ceil`, `tan` and the unit vector `from_angle` (cos, sin) are PARAMETERS: the same libm functions on both sides.
+```
+if KERNEL_apSegmentsBad: raise ValueError
+delta_angle = KERNEL_apDelta
+if KERNEL_apPositive: arc_count = KERNEL_apCount(ceil(KERNEL_apCeilArg), segments)  else: raise ValueError
+segment_angle = KERNEL_apSegAngle;  tangent_length = KERNEL_apTanLen(tan(KERNEL_apTanArg))
+angle = start_angle; end_point = from_angle(angle)
+for _ in range(arc_count):
+    start_point = end_point; KERNEL_apAngle; end_point = from_angle(angle)
+    yield start_point, KERNEL_apCp1(start_point), KERNEL_apCp2(end_point), end_point
+``` -/
+structure ArcK where
+  segBad : Rat → Bool
+  delta : Rat → Rat → Rat
+  positive : Rat → Bool
+  ceilArg : Rat → Rat → Except PyErr Rat
+  count : Rat → Rat → Rat
+  segAngle : Rat → Rat → Except PyErr Rat
+  tanArg : Rat → Rat
+  tanLen : Rat → Rat
+  angle : Rat → Rat → Rat
+  cp1 : V3 → Rat → V3
+  cp2 : V3 → Rat → V3
+
+/-- the loop; the state is the current `angle` (start_point = from_angle of the angle before the step, a pure function) -/
+def arcLoop (K : ArcK) (fromAngle : Rat → V3) (sa tl : Rat) : Nat → Rat → List (V3 × V3 × V3 × V3)
+  | 0, _ => []
+  | n + 1, angle =>
+    let a' := K.angle angle sa
+    (fromAngle angle, K.cp1 (fromAngle angle) tl, K.cp2 (fromAngle a') tl, fromAngle a') :: arcLoop K fromAngle sa tl n a'
+
+def arcParameters (K : ArcK) (ceil tan : Rat → Rat) (fromAngle : Rat → V3) (pi : Rat) (startA endA segments : Rat) :
+    Except PyErr (List (V3 × V3 × V3 × V3)) :=
+  if K.segBad segments then .error .valueError else
+  let delta := K.delta startA endA
+  if !K.positive delta then .error .valueError else
+  (K.ceilArg delta pi).bind (fun ca =>
+    let count := K.count (ceil ca) segments
+    (K.segAngle delta count).map (fun sa =>
+      arcLoop K fromAngle sa (K.tanLen (tan (K.tanArg sa))) (idx count).toNat startA))
+
+/-! ## `is_point_in_polygon_2d(point, polygon, abs_tol)` (construct, both twins; pinned skeletons)
+Python:  `if KERNEL_pipClosed: polygon = polygon[:-1]`; `x1, y1 = polygon[-1]`; `for x2, y2 in polygon: KERNEL_pipOnEdge (return 0);
+          if KERNEL_pipToggle: inside = not inside; x1 = x2; y1 = y2`
+Cython:  `if KERNEL_pipClosed: size -= 1; last -= 1`; `p1 = vertices[last]`; `for i in range(size): p2 = vertices[i]; …` same body
+both return -1 for fewer than 3 vertices (before and after removing the closing vertex), +1 / -1 by the parity of the toggles. -/
+structure PipK where
+  closed : V2 → V2 → Bool
+  onEdge : Rat → Rat → Rat → Rat → Rat → Rat → Rat → Rat      -- x y x1 y1 x2 y2 abs_tol; 0 = on the boundary (`return 0`)
+  toggle : Rat → Rat → Rat → Rat → Rat → Rat → Except PyErr Bool
+
+def pipLoop (K : PipK) (x y tol : Rat) : List V2 → V2 → Bool → Except PyErr Int
+  | [], _, inside => .ok (if inside then 1 else -1)
+  | p2 :: rest, p1, inside =>
+    if K.onEdge x y p1.x p1.y p2.x p2.y tol = 0 then .ok 0 else
+    (K.toggle x y p1.x p1.y p2.x p2.y).bind (fun t => pipLoop K x y tol rest p2 (if t then !inside else inside))
+
+def pipPy (K : PipK) (pt : V2) (polygon : List V2) (tol : Rat) : Except PyErr Int :=
+  if polygon.length < 3 then .ok (-1) else
+  let poly := if K.closed (polygon.getD 0 ⟨0, 0⟩) (polygon.getD (polygon.length - 1) ⟨0, 0⟩) then polygon.dropLast else polygon
+  if poly.length < 3 then .ok (-1) else
+  pipLoop K pt.x pt.y tol poly (poly.getD (poly.length - 1) ⟨0, 0⟩) false
+
+def pipPyx (K : PipK) (pt : V2) (vertices : List V2) (tol : Rat) : Except PyErr Int :=
+  let size := vertices.length
+  if size < 3 then .ok (-1) else
+  let last := size - 1
+  let cl := K.closed (vertices.getD 0 ⟨0, 0⟩) (vertices.getD last ⟨0, 0⟩)
+  let size := if cl then size - 1 else size
+  let last := if cl then last - 1 else last
+  if size < 3 then .ok (-1) else
+  pipLoop K pt.x pt.y tol (vertices.take size) (vertices.getD last ⟨0, 0⟩) false
+
+/-! ## `Bezier4P.approximate(segments)`, `Bezier3P.approximate(segments)`, `approximated_length(segments)` (pinned skeletons)
+```
+if KERNEL_axBad: raise ValueError(segments)
+delta_t = KERNEL_axDelta
+yield cp[0];  for segment in range(1, segments): yield point(KERNEL_axParam);  yield cp[-1]        # Cython: a list
+```
+`approximated_length`: `length = 0.0; for point in approximate(segments): if <not the first>: KERNEL_alAdd; prev_point = point`
+(Python tests `prev_point is not None`, Cython a start flag). -/
+def approximate (bad : Rat → Bool) (delta : Rat → Except PyErr Rat) (param : Rat → Rat → Rat) (point : Rat → V3) (first last : V3)
+    (segments : Rat) : Except PyErr (List V3) :=
+  if bad segments then .error .valueError else
+  (delta segments).map (fun dt =>
+    first :: ((List.range' 1 ((idx segments).toNat - 1)).map (fun (k : Nat) => point (param dt (k : Rat))) ++ [last]))
+
+def polylineLength (add : Rat → V3 → V3 → Rat) : List V3 → Rat
+  | [] => 0
+  | p :: rest => (rest.foldl (fun (st : Rat × V3) q => (add st.1 st.2 q, q)) (0, p)).1
+
+/-! ## `cubic_bezier_from_arc(center, radius, start_angle, end_angle, segments)` (bezier4p; pinned skeletons)
+```
+angle_span = arc_angle_span_deg(start_angle, end_angle);  if KERNEL_faTiny: return
+s = start_angle
+start_angle = RAD(s) % tau                 # Python: math.radians(s) % math.tau, Cython: (s * DEG2RAD) % M_TAU
+end_angle = RAD(s + angle_span)
+while KERNEL_faMore: KERNEL_faBump
+for control_points in cubic_bezier_arc_parameters(start_angle, end_angle, segments): yield Bezier4P([KERNEL_faPoint for p in control_points])
+``` -/
+def fromArc (tiny : Rat → Bool) (more : Rat → Rat → Bool) (bump : Rat → Rat → Rat) (point : V3 → V3 → Rat → V3)
+    (span : Rat → Rat → Rat) (startRad : Rat → Rat) (endRad : Rat → Rat → Rat) (fmod : Rat → Rat → Rat) (tau : Rat)
+    (arcs : Rat → Rat → Rat → Except PyErr (List (V3 × V3 × V3 × V3)))
+    (center : V3) (radius startDeg endDeg segments : Rat) (fuel : Nat) : Option (Except PyErr (List (V3 × V3 × V3 × V3))) :=
+  let sp := span startDeg endDeg
+  if tiny sp then some (.ok []) else
+  let sa := fmod (startRad startDeg) tau
+  (whileFuel (fun e => more sa e) (fun e => bump e tau) fuel (endRad startDeg sp)).map (fun ea =>
+    (arcs sa ea segments).map (fun l => l.map (fun q =>
+      (point center q.1 radius, point center q.2.1 radius, point center q.2.2.1 radius, point center q.2.2.2 radius))))
+
 end EzdxfVerif.TwinLoops
